@@ -7,6 +7,7 @@ import SeqVerif.Model.AggLimits
 import SeqVerif.Model.AggCodec
 import SeqVerif.Model.AggNum
 import SeqVerif.Model.AggShard
+import SeqVerif.Model.Nodes
 import SeqVerif.Extracted.C06
 set_option linter.unusedVariables false
 /-!
@@ -384,6 +385,32 @@ theorem c06_shard_code_total (c : Code) (hc : c ≠ .noError) :
     shardOutcome SV.Extracted.C06.shardCodeArms c = .refused c :=
   shardOutcome_total _ (by decide) c hc
 
+/-! ## aggregations are evaluated over the SET of matching LIDs -/
+
+/-- **the OR node hands the aggregators a duplicate-free stream** (composition with C02's model of `nodeOr`,
+`SV.orMerge`, read-only): for strictly ordered operands - which may overlap - the merged stream is strictly ordered
+in the search direction, in BOTH orders, i.e. it satisfies the hypothesis `LidsSorted` of `c06_walk`, and it holds
+exactly the union.  This is the lemma the aggregation theorems need from the eval tree: a LID present in both
+operands reaches `Next` / the histogram / `total` once. -/
+theorem c06_or_stream_duplicate_free (rev : Bool) (xs ys : List Nat) (hx : SV.SortedBy rev xs) (hy : SV.SortedBy rev ys) :
+    LidsSorted rev (SV.orMerge rev xs ys) ∧ (SV.orMerge rev xs ys).Nodup ∧
+    ∀ v, v ∈ SV.orMerge rev xs ys ↔ v ∈ xs ∨ v ∈ ys := by
+  have hs := SV.orMerge_sorted rev xs ys hx hy
+  refine ⟨hs, ?_, fun v => SV.mem_orMerge rev xs ys v⟩
+  exact hs.imp (fun {a b} h e => by subst e; rw [SV.lessFn_irrefl] at h; cases h)
+
+/-- ... and duplicates would be counted: the histogram (like every aggregator: `c06_hist`, `c06_count`, ...) counts
+the entries of the stream it is given, so its value is the number of matching documents exactly when the stream is
+duplicate-free.  Witness: document 5 delivered twice is counted twice. -/
+theorem c06_duplicates_are_counted (interval : Nat) (lids : List Nat) (mid : Nat → Nat) (b : Nat) :
+    histGet (histRun interval (lids.map mid)) b = (lids.filter fun l => histBucket interval (mid l) = b).length ∧
+    histRun 10 ([5, 5].map id) = [(0, 2)] ∧ histRun 10 ([5].map id) = [(0, 1)] := by
+  refine ⟨?_, by decide, by decide⟩
+  rw [histRun_get]
+  induction lids with
+  | nil => rfl
+  | cons l ls ih => by_cases h : histBucket interval (mid l) = b <;> simp [List.filter_cons, h, ih]
+
 /-! ## values -/
 
 /-- **count / sum / min / max / not-exists of a bin** are those of the documents' values: this is the content of
@@ -600,6 +627,10 @@ theorem c06_x_shard_codes :
 theorem c06_x_parse_num :
     parseNumCalls = ["strconv.ParseFloat(str, 64)"] ∧
     parseNumErrConds = ["err != nil || math.IsNaN(num) || math.IsInf(num, 0)"] := by decide
+
+/-- `aggregationArgsFromProto` decides `SkipWithoutTimestamp` per aggregation, from that aggregation's own interval
+(`aggregate`'s `skipWithoutTimestamp` argument is per aggregation in the model; the handlers are exercised by agg.e2e) -/
+theorem c06_x_skip_per_aggregation : skipPerAggregation = ["agg.Interval != nil"] := by decide
 
 /-- histogram bucket rule of `iterateEvalTree`, accumulation in `MergeQPRs`, time bins of `provideExtractTimeFunc` -/
 theorem c06_x_hist :
